@@ -5,10 +5,16 @@ var levels = map[string]string{
 	"C02": "fault_enumeration",
 	"C06": "fault_enumeration",
 	"C09": "exploration",
+	"C12": "fault_enumeration",
+	"C16": "exploration",
+	"C19": "fault_enumeration",
 }
 
 var rules = map[string]string{
 	"C02": "run = handshake variant x fault mask; enumerated: every drop mask over the first N datagrams of each direction for each of 13 variants (plus, thorough, every 5-action mask over the first 3 per direction), then seeded samples with random rates of drop/dup/hold, latencies and timer knobs; non-trivial = at least one fault actually fired; distinct = distinct hash of the full event trace (kinds, endpoints, datagram shapes, decisions)",
 	"C06": "run = established session of K records whose datagrams are captured and then presented to the receiver in a generated arrival sequence with repetition; enumerated: every arrival sequence of length L over K records for window sizes 1,2,3,64 (quick K=4,L=6; thorough K=5,L=7), then sampled sessions of up to 400 records with displacements around W-1/W/W+1 and duplicates, W in 1..256, 13 suite/CID/version configurations; oracle = 20-line window model; non-trivial = a duplicate, an out-of-window or a window-edge arrival occurred; distinct = distinct event-trace hash",
 	"C09": "run = session config x fault rules during the handshake x 1-4 writer goroutines per side x yield-point schedule (park probability 0-80%) x optional early writes, Close racing writes, injected datagrams; oracle = wire monitor over every datagram each endpoint handed to its socket: (epoch, seq) never repeats and increases per epoch in emission order (legacy headers; DTLS 1.3 unified headers are skipped because the sequence number is encrypted); non-trivial = scheduler parked at least once, a fault fired, or more than one writer; distinct = distinct event-trace hash",
+	"C12": "run = 1-5 handshake messages (length 0..20000) x MTU (1..1500) x partition (the real sender's fragmentHandshake output, or an adversarial disjoint partition with extra zero-length fragments) x arrival order/duplication/interleaving drawn by the chooser x 1-3 fragments per record, pushed into the real FragmentBuffer shadowed by a bitmap reassembler; enumerated: every partition x every permutation x one duplicate at every position for lengths <= 4 (quick) / 6 (thorough); non-trivial = more arrivals than messages; distinct = distinct event-trace hash over the arrival sequence",
+	"C16": "run = (handshake variant | data-phase configuration) x side(s) acted on x controller step at which the action fires x action (Close by 1-4 goroutines, read/write deadline, cleartext fatal alert) x optional expired deadlines before Close x optional Write blocked in the transport x optional yield-point schedule x optional loss; enumerated: Close at each of the first 140 controller steps of 13 handshake variants x {c,s,both}, and at each of 60 steps of 13 data-phase configurations with and without a stalled Write; oracles: every Close returns, every pending call returns, error classes, close_notify count on the wire (DTLS 1.2 without CID), peer Read EOF when the close_notify datagram was delivered, deadline timing, end-of-bubble goroutine leak check; distinct = distinct event-trace hash",
+	"C19": "run = DTLS 1.2 configuration (suites, CID layouts incl. send-only, SRTP/ALPN, client cert + session id) x exporting side x (i,j) records exchanged before export x crash of the exporter (socket severed, no Close) x restart from the bytes on the same address x optional corruption (truncation, bit flip, field rewrite incl. epoch 0xffff, sequence number 2^48-3); enumerated: every (i,j) <= 4 x either side x every configuration; oracles: 3 payloads each way after import, exporter and parameters equal, wire numbers continue without reuse, write fails at 2^48, corrupted bytes rejected or harmless, DTLS 1.3 state refused, no panic; distinct = distinct event-trace hash",
 }
